@@ -42,6 +42,11 @@ func layerCfg(layers string) *stream.StreamFactoryConfig {
 	cfg.EnableEncryption = strings.Contains(layers, "enc")
 	cfg.EncryptionKey = layerKey
 	cfg.EnableCompression = strings.Contains(layers, "gzip")
+	if i := strings.Index(layers, "rate="); i >= 0 {
+		// the token-bucket reader/writer the factory puts directly on the raw connection
+		cfg.EnableRateLimit = true
+		fmt.Sscanf(layers[i:], "rate=%d", &cfg.RateLimitBytes)
+	}
 	return cfg
 }
 
@@ -115,6 +120,9 @@ func layerOracle(t vkit.TB, c LayerCase) {
 	data := make([]byte, len(c.Hex)/2)
 	fmt.Sscanf(c.Hex, "%x", &data)
 	r := decodeLayered(c.Layers, data, c.Chunk)
+	if r.hung {
+		r = decodeLayered(c.Layers, data, c.Chunk) // re-run once before reporting
+	}
 	switch {
 	case r.panicked != "":
 		vkit.Violation(t, "C05/decoder-panic/layer="+c.Layers, r.panicked, c)
@@ -215,6 +223,51 @@ func TestDecoderLayersChunkLengths(t *testing.T) {
 		}
 	}
 	vkit.Exhaustive("encrypted chunk length 0..40 and limit neighbourhood x complete/short", true)
+}
+
+// TestRateLimitedDecoder: the factory's rate-limit layer (a token bucket on the raw connection) under
+// the decoder. A finite stream of well-formed packets whose bodies are smaller than, equal to and larger
+// than the bucket's burst size must be decoded (or refused) in bounded time: at these rates every case
+// needs well under 4 s of token time; "does not return" is judged at 10 s, twice.
+func TestRateLimitedDecoder(t *testing.T) {
+	i := 0
+	for _, rate := range []int{300, 800, 1000, 1024, 2048, 1 << 20} {
+		burst := rate / 2
+		if rate >= 1024 && burst < 1024 {
+			burst = 1024
+		}
+		if burst > rate {
+			burst = rate
+		}
+		for _, body := range []int{0, 1, burst - 1, burst, burst + 1, 2*burst + 7, 1100} {
+			if body < 0 || body > 3*rate {
+				continue
+			}
+			for _, ty := range []byte{0x01, 0x22} {
+				i++
+				if !vkit.Mine(i) {
+					continue
+				}
+				if !vkit.Thorough() && ty == 0x22 && body != burst+1 {
+					continue
+				}
+				s := append(frame(ty, bytes.Repeat([]byte{'x'}, body)), frame(0x24, nil)...)
+				layerOracle(t, LayerCase{Layers: fmt.Sprintf("rate=%d", rate), Hex: fmt.Sprintf("%x", s), Chunk: 0})
+				vkit.Class(fmt.Sprintf("rate-limit:body-vs-burst=%d", sign(body-burst)))
+			}
+		}
+	}
+	vkit.Exhaustive("rate x body size around the burst size", true)
+}
+
+func sign(x int) int {
+	switch {
+	case x < 0:
+		return -1
+	case x > 0:
+		return 1
+	}
+	return 0
 }
 
 // ---------------------------------------------------------------------------
